@@ -15,7 +15,8 @@ Record run_obs := { r_method : N; r_src : val; r_n0 : N;
 
 (* a declared method as written: signature and its goverter: lines (text after the prefix) *)
 Record decl_src := { ds_name : rstr; ds_src : ty; ds_tgt : ty; ds_update : bool; ds_lines : list rstr;
-                     ds_ctx : list ty; ds_err : bool }.     (* context parameter types; error result *)
+                     ds_ctx : list ty; ds_err : bool;       (* context parameter types; error result *)
+                     ds_transforms : list (list (rstr * rstr)) }.  (* per enum:transform line: source member -> rewritten name *)
 
 Record conv_case := { k_id : N; k_env : env; k_global : list rstr; k_lines : list rstr; k_out : N;
                       k_methods : list decl_src;
@@ -23,6 +24,7 @@ Record conv_case := { k_id : N; k_env : env; k_global : list rstr; k_lines : lis
                       k_extend : list extspec;           (* goverter:extend arguments in order, resolved to candidates *)
                       k_fnames : list (rstr * N);        (* FUNC texts of map ... | FUNC / default FUNC lines -> function *)
                       k_smeths : list (N * rstr * N);    (* methods of named types usable as field sources *)
+                      k_enum_excluded : list N;          (* named types matched by the converter's enum:exclude patterns *)
                       k_outcome : N;                     (* 0 = generated, 1 = generator panicked, else diagnostic class *)
                       k_imports : option (list N);       (* packages imported by the emitted file (None: not inspected) *)
                       k_funcs : list rstr;               (* names of the emitted methods / functions *)
@@ -124,8 +126,11 @@ Section lines.
   Definition set_func (t : rstr) (f : N) (m : mstate) : mstate :=
     {| ms_common := ms_common m; ms_fields := upd_field t (fun x => {| fm_source := fm_source x; fm_ignore := fm_ignore x; fm_func := Some f |}) (ms_fields m);
        ms_automap := ms_automap m; ms_raw := ms_raw m; ms_update := ms_update m; ms_context := ms_context m |}.
-  Definition method_line_f (acc : mstate * option N) (line : rstr) : res (mstate * option N) :=
-    let '(m, ctor) := acc in
+  Record xstate := { x_ms : mstate; x_ctor : option N; x_emap : list (rstr * rstr); x_ntr : nat }.
+  Definition with_ms (x : xstate) (m : mstate) : xstate := {| x_ms := m; x_ctor := x_ctor x; x_emap := x_emap x; x_ntr := x_ntr x |}.
+  Definition valid_action (s : rstr) : bool := is s "@panic" || is s "@error" || is s "@ignore".
+  Definition method_line_f (x : xstate) (line : rstr) : res xstate :=
+    let m := x_ms x in
     let '(cmd, rest) := command line in
     if is cmd "map" then
       let '(lhs, custom) := break_bar rest in
@@ -137,38 +142,54 @@ Section lines.
           | Some f => if negb (fn_valid raws opts_map_func f) then Diag D_SIG
                       else do m' <- method_line m (s2r "map "%string ++ lhs);
                            match rev (fields lhs) with
-                           | t :: _ => Ok (set_func t f m', ctor)
+                           | t :: _ => Ok (with_ms x (set_func t f m'))
                            | [] => Diag D_BAD_VALUE
                            end
           | None => Diag D_FUNC_REF
           end
-        | _ => do m' <- method_line m line; Ok (m', ctor)
+        | _ => do m' <- method_line m line; Ok (with_ms x m')
         end
-      | None => do m' <- method_line m line; Ok (m', ctor)
+      | None => do m' <- method_line m line; Ok (with_ms x m')
       end
     else if is cmd "default" then
       match fields rest with
       | [fname] => match resolve_fn names fname with
-                   | Some f => if fn_valid raws opts_default f then Ok (m, Some f) else Diag D_SIG
+                   | Some f => if fn_valid raws opts_default f then Ok {| x_ms := m; x_ctor := Some f; x_emap := x_emap x; x_ntr := x_ntr x |} else Diag D_SIG
                    | None => Diag D_FUNC_REF
                    end
       | _ => Diag D_FUNC_REF
       end
-    else do m' <- method_line m line; Ok (m', ctor).
+    else if is cmd "enum:map" then
+      match fields rest with
+      | [a; b] => if Gen.is_action b && negb (valid_action b) then Diag D_BAD_VALUE
+                  else Ok {| x_ms := m; x_ctor := x_ctor x; x_emap := x_emap x ++ [(a, b)]; x_ntr := x_ntr x |}
+      | _ => Diag D_BAD_VALUE
+      end
+    else if is cmd "enum:transform" then
+      match fields rest with
+      | name :: _ => if is name "regex" then Ok {| x_ms := m; x_ctor := x_ctor x; x_emap := x_emap x; x_ntr := S (x_ntr x) |} else Diag D_BAD_VALUE
+      | [] => Diag D_BAD_VALUE
+      end
+    else do m' <- method_line m line; Ok (with_ms x m').
 
-  Definition method_state_f (cc : smap) (lines : list rstr) : res (mstate * option N) :=
-    fold_res method_line_f lines ({| ms_common := cc; ms_fields := []; ms_automap := []; ms_raw := false; ms_update := []; ms_context := [] |}, None).
+  Definition method_state_f (cc : smap) (lines : list rstr) : res xstate :=
+    fold_res method_line_f lines
+      {| x_ms := {| ms_common := cc; ms_fields := []; ms_automap := []; ms_raw := false; ms_update := []; ms_context := [] |};
+         x_ctor := None; x_emap := []; x_ntr := 0 |}.
 
+  Variable excluded : list N.
   Fixpoint decl_methods (cc : smap) (ms : list decl_src) : res (list decl_method) :=
     match ms with
     | [] => Ok []
     | m :: r => do sc <- method_state_f cc (ds_lines m);
                 do rest <- decl_methods cc r;
-                let c0 := mconf_of (fst sc) (ds_update m) in
+                let c0 := mconf_of (x_ms sc) (ds_update m) in
                 Ok ({| dm_name := ds_name m; dm_src := ds_src m; dm_tgt := ds_tgt m; dm_update := ds_update m;
                        dm_conf := {| m_common := m_common c0; m_fields := m_fields c0; m_automap := m_automap c0;
                                      m_raw_field_settings := m_raw_field_settings c0; m_UpdateTarget := m_UpdateTarget c0;
-                                     m_constructor := snd sc |};
+                                     m_constructor := x_ctor sc; m_enum_map := x_emap sc;
+                                     m_enum_transforms := firstn (x_ntr sc) (ds_transforms m);
+                                     m_enum_excluded := excluded |};
                        dm_ctx := ds_ctx m; dm_err := ds_err m |} :: rest)
     end.
 End lines.
@@ -181,8 +202,8 @@ Definition case_generate (c : conv_case) : gres table :=
     match resolve_ext (k_fraws c) (k_extend c) with
     | None => GDiag D_SIG
     | Some exts =>
-      match decl_methods (k_fraws c) (k_fnames c) cc (k_methods c) with
-      | Ok ms => generate (k_env c) (common_of cc) (k_out c) (case_ftable c) (ext_index (case_ftable c) exts) (k_smeths c) ms
+      match decl_methods (k_fraws c) (k_fnames c) (k_enum_excluded c) cc (k_methods c) with
+      | Ok ms => generate (k_env c) (common_of cc) (k_out c) (k_enum_excluded c) (case_ftable c) (ext_index (case_ftable c) exts) (k_smeths c) ms
       | Diag cl => GDiag cl
       | Panic s => GPanic s
       end
